@@ -156,11 +156,16 @@ func Parse(s string) (*DPoP, error) {
 	if token.IssuedAt().IsZero() {
 		return nil, fmt.Errorf("%w: missing iat claim", ErrInvalidDPoP)
 	}
-	if v, ok := token.Get(HTUKey); !ok || v == "" {
+	// htu and htm must be (non-empty) strings: HTU() and HTM() return them as such
+	if v, _ := token.Get(HTUKey); v == nil || v == "" {
 		return nil, fmt.Errorf("%w: missing htu claim", ErrInvalidDPoP)
+	} else if _, ok := v.(string); !ok {
+		return nil, fmt.Errorf("%w: htu claim is not a string", ErrInvalidDPoP)
 	}
-	if v, ok := token.Get(HTMKey); !ok || v == "" {
+	if v, _ := token.Get(HTMKey); v == nil || v == "" {
 		return nil, fmt.Errorf("%w: missing htm claim", ErrInvalidDPoP)
+	} else if _, ok := v.(string); !ok {
+		return nil, fmt.Errorf("%w: htm claim is not a string", ErrInvalidDPoP)
 	}
 	if token.JwtID() == "" {
 		return nil, fmt.Errorf("%w: missing jti claim", ErrInvalidDPoP)
@@ -192,7 +197,8 @@ func jwkIsPrivateKey(jwk jwk.Key) bool {
 // HTU returns the htu claim of the DPoP token
 func (t DPoP) HTU() string {
 	if v, ok := t.Token.Get(HTUKey); ok {
-		return v.(string)
+		s, _ := v.(string)
+		return s
 	}
 	return ""
 }
@@ -200,7 +206,8 @@ func (t DPoP) HTU() string {
 // HTM returns the htm claim of the DPoP token
 func (t DPoP) HTM() string {
 	if v, ok := t.Token.Get(HTMKey); ok {
-		return v.(string)
+		s, _ := v.(string)
+		return s
 	}
 	return ""
 }
@@ -230,7 +237,11 @@ func (t DPoP) Match(jkt string, method string, url string) (bool, error) {
 }
 
 func strip(raw string) string {
-	url, _ := url.Parse(raw)
+	url, err := url.Parse(raw)
+	if err != nil {
+		// not a URL: compared as it is
+		return raw
+	}
 	url.Scheme = "https"
 	url.Host = strings.Split(url.Host, ":")[0]
 	url.RawQuery = ""
